@@ -427,4 +427,16 @@ example : (match getitem keymap (setitem keymap [] "date" (.str "d")) "modified"
 example : raw [("published", Val.str "p")] "updated" = none ∧
     raw [("published", Val.str "p")] "published" = some (.str "p") := by decide +kernel
 
+/-- the premise of `alias_write_indistinguishable` is met by the shipped table: `guid` and `id` are two spellings of one canonical key,
+and two stores built in different orders have the same abstract map -/
+example : canon keymap "guid" = canon keymap "id" := by decide +kernel
+
+example : abs (rawSet (rawSet [] "a" (Val.str "1")) "b" (.str "2")) = abs (rawSet (rawSet [] "b" (Val.str "2")) "a" (.str "1")) := by
+  funext k
+  by_cases ha : k = "a"
+  · subst ha; decide +kernel
+  · by_cases hb : k = "b"
+    · subst hb; decide +kernel
+    · simp [abs, raw_rawSet_other, ha, hb]
+
 end FeedVerif.Dict
